@@ -1032,6 +1032,12 @@ func (fc *fnCtx) extAssignLL(x *ast.AssignStmt, rest []ast.Stmt, lvl int) (strin
 
 // extRegister (hook, end of genFuncM): makes the function callable from kernels translated later into the module
 func (fc *fnCtx) extRegister(e entry, fd *ast.FuncDecl, nres int) {
+	if fc.flat().nestedUsed {
+		// a kernel with nested-object parameters is not callable from other kernels (their call sites do not pass them)
+		delete(methodCallees, e.module+"|"+e.pkg+"."+e.name)
+		delete(callees, e.module+"|"+e.pkg+"."+e.name)
+		return
+	}
 	if len(fc.m.outVars) != 0 || fc.ext().isInit {
 		return
 	}
